@@ -540,6 +540,113 @@ pub fn multi_candidate_case(rng: &mut Rng) -> Case {
 /// Content that *declares* `utf-8` or `ascii` (any spelling) – encodings that are hints anyway – and is
 /// messy enough (control characters) for the declared encoding to be accepted with chaos between 10 %
 /// and the threshold: no early exit, so the rest of the probing order still runs.
+/// An ASCII English text declaring an encoding that is tied to one language (EUC-KR, Big5, GBK, ...), with
+/// chaos between 10 % and the threshold: the declared encoding is probed first, accepted without an early
+/// exit, and every ASCII-compatible encoding probed later decodes to the same text.
+pub fn declared_tied_case(rng: &mut Rng) -> Case {
+    let label = *rng.pick(&["euc-kr", "big5", "gbk", "gb18030", "euc-jp", "shift_jis", "iso-2022-jp", "korean", "x-sjis", "chinese"]);
+    let decl = match rng.below(3) {
+        0 => format!("# -*- coding: {} -*-\n", label),
+        1 => format!("<meta charset=\"{}\">\n", label),
+        _ => format!("Content-Type: text/plain; charset={}\n\n", label),
+    };
+    let chars: Vec<char> = TEXTS[0].1.chars().collect();
+    let every = rng.range(58, 74);
+    let target = rng.range(600, 1600);
+    let mut s = decl;
+    for n in 0..target {
+        s.push(chars[n % chars.len()]);
+        if n % every == every - 1 {
+            s.push(*rng.pick(&['\u{1}', '\u{2}', '\u{7}', '\u{10}']));
+        }
+    }
+    Case { bytes: s.into_bytes(), sett: Sett::default(), tag: format!("declared-tied:{}", label) }
+}
+
+/// Content that declares a legacy code page and is so messy that no code page passes: the only possible
+/// answer is the fallback on the declared encoding (or on utf-8 / ascii when the declaration names nothing usable).
+pub fn declared_fallback_case(rng: &mut Rng) -> Case {
+    let label = *rng.pick(&["windows-1251", "koi8-r", "iso-8859-2", "windows-1252", "ibm866", "iso-8859-7", "windows-1256", "macintosh", "latin1", "cp1250", "big5", "euc-kr", "no-such-charset"]);
+    let decl = match rng.below(3) {
+        0 => format!("<meta charset=\"{}\">", label),
+        1 => format!("# coding: {}\n", label),
+        _ => format!("<?xml version=\"1.0\" encoding=\"{}\"?>", label),
+    };
+    let mut b = decl.into_bytes();
+    let n = rng.range(120, 700);
+    for i in 0..n {
+        b.push(match rng.below(6) {
+            0 => b' ',
+            1 => b'#' + (i % 3) as u8,
+            _ => 1 + rng.below(8) as u8,
+        });
+    }
+    let mut sett = Sett::default();
+    if rng.chance(1, 4) {
+        sett.thr = *rng.pick(&[0.1f32, 0.3, 0.05]);
+    }
+    Case { bytes: b, sett, tag: format!("declared-fallback:{}", label) }
+}
+
+/// Inputs above 1,000,000 bytes in the Unicode encodings: multi-byte characters placed so that byte 500,000 /
+/// 1,000,000 of the input (and of the decoded text) falls on a character start, inside a character, or just
+/// after one; with and without the encoding's own mark. Valid throughout – every one of them has a correct answer.
+pub fn large_unicode_cases(thorough: bool) -> Vec<Case> {
+    let mut v = vec![];
+    let cjk = "我没有埋怨，磋砣的只是一些时间。";
+    let mk = |bytes: Vec<u8>, tag: String| Case { bytes, sett: Sett::default(), tag: format!("nomodel:large-unicode:{}", tag) };
+    // 3-byte characters, shifted by 0/1/2 ASCII bytes: byte 500,000 is a lead byte or one of the two trail bytes
+    for shift in 0..3usize {
+        if !thorough && shift == 0 {
+            continue;
+        }
+        let mut b: Vec<u8> = vec![b'a'; shift];
+        while b.len() < 1_000_020 {
+            b.extend_from_slice(cjk.as_bytes());
+        }
+        v.push(mk(b.clone(), format!("cjk-utf8-shift{}", shift)));
+        if shift == 2 || thorough {
+            let mut m = b"\xef\xbb\xbf".to_vec();
+            m.extend_from_slice(&b);
+            v.push(mk(m, format!("cjk-utf8-shift{}-marked", shift)));
+        }
+    }
+    // ASCII with one two-byte character straddling byte 500,000 (and 1,000,000) of text and input alike
+    for pos in [499_999usize, 999_999] {
+        if !thorough && pos != 499_999 {
+            continue;
+        }
+        let mut b: Vec<u8> = std::iter::repeat(*b"plain words and nothing else, line after line. ").take(1_000_200 / 47 + 1).flatten().collect();
+        b.truncate(1_000_200);
+        b[pos] = 0xc3;
+        b[pos + 1] = 0xa9;
+        v.push(mk(b, format!("ascii-with-e-acute-at-{}", pos)));
+    }
+    // UTF-16 and GB18030 with their marks
+    let units: Vec<u16> = "The quick brown fox jumps over the lazy dog, again and again. ".encode_utf16().collect();
+    for le in [true, false] {
+        if !thorough && !le {
+            continue;
+        }
+        let mut b: Vec<u8> = if le { b"\xff\xfe".to_vec() } else { b"\xfe\xff".to_vec() };
+        while b.len() < 1_000_100 {
+            for u in &units {
+                b.extend_from_slice(&if le { u.to_le_bytes() } else { u.to_be_bytes() });
+            }
+        }
+        v.push(mk(b, format!("utf16{}-marked", if le { "le" } else { "be" })));
+    }
+    if thorough {
+        let mut b = b"\x84\x31\x95\x33".to_vec();
+        let unit = enc_bytes_lossy("这是一个用来测试编码检测的中文句子，内容并不重要。", "gb18030");
+        while b.len() < 1_000_100 {
+            b.extend_from_slice(&unit);
+        }
+        v.push(mk(b, "gb18030-marked".into()));
+    }
+    v
+}
+
 pub fn declared_self_case(rng: &mut Rng) -> Case {
     let label = *rng.pick(&["utf-8", "utf8", "UTF-8", "ascii", "us-ascii", "unicode-1-1-utf-8", "ANSI_X3.4-1968", "utf-8"]);
     let is_utf8 = label.to_ascii_lowercase().contains("utf");
